@@ -20,7 +20,8 @@ from .sym import SBool, SBytes, SInt, SObj, SSeq, T, Ty, Unsupported, simp, to_z
 
 
 class LoopContract:
-    def __init__(self, invariant=(), decreases=(), index="_i", types=None, modifies=None):
+    def __init__(self, invariant=(), decreases=(), index="_i", types=None, modifies=None, modifies_heap=None):
+        self.modifies_heap = list(modifies_heap or [])  # (heap class, field) pairs written by the loop through calls
         self.invariant = [invariant] if isinstance(invariant, str) else list(invariant)
         self.decreases = [decreases] if isinstance(decreases, str) else list(decreases)
         self.index = index
@@ -28,8 +29,8 @@ class LoopContract:
         self.modifies = modifies or {}
 
 
-def loop(invariant=(), decreases=(), index="_i", types=None, modifies=None):
-    return LoopContract(invariant, decreases, index, types, modifies)
+def loop(invariant=(), decreases=(), index="_i", types=None, modifies=None, modifies_heap=None):
+    return LoopContract(invariant, decreases, index, types, modifies, modifies_heap)
 
 
 class Contract:
@@ -259,10 +260,17 @@ class Registry:
         if info is None:
             raise Unsupported(f"contract {c.name} on a non-Python function")
         locals_ = I.bind_args(fn, info.node, args, kwargs)
+        for nm in c.params:
+            if nm not in locals_:
+                # ghost parameter of the callee: supplied by the caller's ghost of the same name
+                gv = getattr(I, "ghost_values", {}).get(nm)
+                if gv is None:
+                    raise Unsupported(f"ghost parameter {nm} of {c.name} is not available at this call site")
+                locals_[nm] = gv
         fr = Frame(fn, locals_, fn.__globals__, None)
         tag = f"call:{c.name}"
         I.prove_clauses(c.requires, fr, f"{tag}.requires")
-        memo = {"__heap__": dict(I.path.heap)}
+        memo = {"__heap__": dict(I.path.heap), "__limit__": _heap_limit(I)}
         from .models2 import snapshot_value
 
         pre_locals = {k: snapshot_value(v, memo) for k, v in locals_.items()}
@@ -334,6 +342,12 @@ class Registry:
                 obj.fields[attr] = I.havoc_like(obj.fields[attr], expr)
             else:
                 obj.fields[attr] = I.fresh(ty, expr)
+
+
+def _heap_limit(I):
+    from .models import heap_limit
+
+    return heap_limit(I) if I.path.alloc0 is not None else None
 
 
 REG = Registry()
@@ -458,7 +472,7 @@ def _run_one(reg, I: Interp, c: Contract, fn, info, case):
     I.assume_clauses(c.requires, fr)
     if case:
         I.assume_clauses(case.get("requires", []), fr)
-    memo = {"__heap__": dict(I.path.heap)}
+    memo = {"__heap__": dict(I.path.heap), "__limit__": _heap_limit(I)}
     pre_locals = {k: snapshot_value(v, memo) for k, v in values.items()}
     pre = Frame(fn, pre_locals, fn.__globals__, None)
     for k, v in pre_locals.items():
@@ -470,6 +484,7 @@ def _run_one(reg, I: Interp, c: Contract, fn, info, case):
         fr.locals[gname] = gv
     args, kwargs = _ordered_args(fn, info, values)
     sig = {x.arg for x in info.node.args.posonlyargs + info.node.args.args + info.node.args.kwonlyargs}
+    I.ghost_values = {nm: v for nm, v in values.items() if nm not in sig}
     for nm, v in values.items():
         if nm not in sig:
             ghost0[nm] = v  # ghost parameter: constrained by `requires`, visible to every clause, not passed to the function
@@ -499,6 +514,7 @@ def _run_one(reg, I: Interp, c: Contract, fn, info, case):
     fr.locals["result"] = result
     pre.locals.update(I.ghost)
     fr.locals.update(I.ghost)
+    path.pre_cover()
     for exc_name, cond, mode in c.raises:
         if mode == "iff":
             cz = I.clause_formula(cond, pre, -1)
